@@ -318,15 +318,19 @@ Qed.
 (* a page in the region: white space aside, the text written for each element is its visible characters; each ends with a line break *)
 Definition shows (sty : styles) (x : nat * elem) (p : str) : Prop :=
   filter nsp p = elem_vis sty (snd x) /\ exists body, p = body ++ [10%N].
+Lemma written_shows sty W off l ps : Forall (fun x => elem_ok sty W off (fst x) (snd x)) l -> written sty W off l ps ->
+  Forall2 (shows sty) l ps.
+Proof.
+  intros Hok Hps. induction Hps as [|x p l ps (raw & Er & ->) _ IH]; [constructor|]. inversion Hok as [|? ? Hx Hl]; subst.
+  constructor; [|now apply IH]. unfold elem_text_for in Er. split.
+  - exact (elem_written_visible sty W off (fst x) (snd x) raw Hx Er).
+  - destruct (elem_raw_nl _ _ _ _ _ _ Er) as (body & ->). rewrite plain_of_render, render_body. eexists. reflexivity.
+Qed.
 Theorem page_bytes_visible W f l s : f_kind f = FPlain -> layout_ok (f_styles f) W l -> render_page W f l = Ok s ->
   exists ps, Forall2 (shows (f_styles f)) l ps /\ s = concat ps.
 Proof.
   intros Hk Hok H. destruct (page_plain_is_elements_at W f l s Hk H) as (ps & Hps & ->). exists ps. split; [|reflexivity].
-  unfold layout_ok in Hok. set (off := align_vis (f_styles f) l 0) in *. clearbody off. clear H.
-  induction Hps as [|x p l ps (raw & Er & ->) _ IH]; [constructor|]. inversion Hok as [|? ? Hx Hl]; subst. constructor; [|now apply IH].
-  unfold elem_text_for in Er. split.
-  - exact (elem_written_visible (f_styles f) W off (fst x) (snd x) raw Hx Er).
-  - destruct (elem_raw_nl _ _ _ _ _ _ Er) as (body & ->). rewrite plain_of_render, render_body. eexists. reflexivity.
+  exact (written_shows _ _ _ _ _ Hok Hps).
 Qed.
 Corollary page_bytes_are_the_visible_texts W f l s : f_kind f = FPlain -> layout_ok (f_styles f) W l -> render_page W f l = Ok s ->
   filter nsp s = concat (map (fun x => elem_vis (f_styles f) (snd x)) l).
@@ -336,13 +340,6 @@ Proof.
 Qed.
 
 (* ---- a part of the page: l = before ++ section ++ after ---- *)
-Lemma Forall2_app_inv_l' {X Y} (R : X -> Y -> Prop) : forall l1 l2 ps, Forall2 R (l1 ++ l2) ps ->
-  exists p1 p2, ps = p1 ++ p2 /\ Forall2 R l1 p1 /\ Forall2 R l2 p2.
-Proof.
-  induction l1 as [|x l1 IH]; intros l2 ps H; [exists [], ps; repeat split; [constructor|exact H]|].
-  inversion H as [|? p ? ps' Hx Hr]; subst. destruct (IH l2 ps' Hr) as (p1 & p2 & -> & H1 & H2).
-  exists (p :: p1), p2. repeat split; [constructor; assumption|exact H2].
-Qed.
 (* a word (no white space in it) that is in the text written for some elements is in the text written for one of them *)
 Lemma infix_split_nl n a b : no_nl n -> infix_of n (a ++ 10%N :: b) -> infix_of n a \/ infix_of n b.
 Proof.
@@ -373,13 +370,15 @@ Lemma spacefree_filter n : spacefree n -> filter nsp n = n.
 Proof. induction 1 as [|c n Hc _ IH]; [reflexivity|]. cbn [filter]. unfold nsp at 1. now rewrite Hc, IH. Qed.
 Theorem section_words W f before sec after s :
   f_kind f = FPlain -> layout_ok (f_styles f) W (before ++ sec ++ after) -> render_page W f (before ++ sec ++ after) = Ok s ->
-  exists s1 s2 s3 ps, s = s1 ++ s2 ++ s3 /\ Forall2 (shows (f_styles f)) sec ps /\ s2 = concat ps /\
+  exists s1 s2 s3, s = s1 ++ s2 ++ s3 /\ text_of (f_styles f) W sec s2 /\
     forall n, n <> [] -> spacefree n -> infix_of n s2 -> exists x, In x sec /\ infix_of n (elem_vis (f_styles f) (snd x)).
 Proof.
-  intros Hk Hok H. destruct (page_bytes_visible W f _ s Hk Hok H) as (ps & Hps & ->).
+  intros Hk Hok H. destruct (page_plain_is_elements_at W f _ s Hk H) as (ps & Hps & ->). unfold layout_ok in Hok.
+  set (off := align_vis (f_styles f) (before ++ sec ++ after) 0) in *. clearbody off. unfold written in Hps.
   apply Forall2_app_inv_l' in Hps as (p1 & p23 & -> & H1 & H23). apply Forall2_app_inv_l' in H23 as (p2 & p3 & -> & H2 & H3).
-  exists (concat p1), (concat p2), (concat p3), p2. split; [now rewrite !concat_app|]. split; [exact H2|]. split; [reflexivity|].
-  intros n Hne Hsf Hi. destruct (word_in_one_element (f_styles f) n (spacefree_no_nl n Hsf) sec p2 H2 Hi Hne) as (x & p & Hin & [Hv _] & Hp).
+  apply Forall_app in Hok as [_ Hok]. apply Forall_app in Hok as [Hok _]. pose proof (written_shows _ _ _ _ _ Hok H2) as Hs2.
+  exists (concat p1), (concat p2), (concat p3). split; [now rewrite !concat_app|]. split; [exists off, p2; split; [exact H2|reflexivity]|].
+  intros n Hne Hsf Hi. destruct (word_in_one_element (f_styles f) n (spacefree_no_nl n Hsf) sec p2 Hs2 Hi Hne) as (x & p & Hin & [Hv _] & Hp).
   exists x. split; [exact Hin|]. rewrite <- Hv, <- (spacefree_filter n Hsf). now apply infix_filter.
 Qed.
 
@@ -395,14 +394,14 @@ Qed.
 Theorem commands_section_words W f sty app_name ch aliases help subs s :
   f_kind f = FPlain -> layout_ok (f_styles f) W (command_page sty app_name ch aliases help subs) ->
   render_page W f (command_page sty app_name ch aliases help subs) = Ok s ->
-  exists s1 s2 s3 ps, s = s1 ++ s2 ++ s3 /\ Forall2 (shows (f_styles f)) (commands_section subs) ps /\ s2 = concat ps /\
+  exists s1 s2 s3, s = s1 ++ s2 ++ s3 /\ text_of (f_styles f) W (commands_section subs) s2 /\
     forall n, n <> [] -> spacefree n -> infix_of n s2 ->
       infix_of n (vis (f_styles f) H_COMMANDS)
       \/ exists sv x, In sv subs /\ visible sv = true /\ In x (sub_block sv) /\ infix_of n (elem_vis (f_styles f) (snd x)).
 Proof.
   intros Hk Hok H. rewrite command_page_decomposes in Hok, H.
-  destruct (section_words W f _ _ _ s Hk Hok H) as (s1 & s2 & s3 & ps & E & Hps & E2 & Hw).
-  exists s1, s2, s3, ps. repeat split; auto. intros n Hne Hsf Hi. destruct (Hw n Hne Hsf Hi) as (x & Hin & Hx).
+  destruct (section_words W f _ _ _ s Hk Hok H) as (s1 & s2 & s3 & E & Hps & Hw).
+  exists s1, s2, s3. split; [exact E|]. split; [exact Hps|]. intros n Hne Hsf Hi. destruct (Hw n Hne Hsf Hi) as (x & Hin & Hx).
   apply commands_section_elems in Hin as [->|(sv & H1 & H2 & H3)].
   - left. unfold elem_vis in Hx. cbn [snd elem_label elem_text] in Hx. rewrite vis_nil in Hx. cbn [app] in Hx.
     assert (munge H_COMMANDS = H_COMMANDS) as Em by reflexivity. now rewrite Em in Hx.
@@ -419,14 +418,14 @@ Qed.
 Theorem available_section_words W f sty app_name display version gopts cmds help s :
   f_kind f = FPlain -> layout_ok (f_styles f) W (application_page sty app_name display version gopts cmds help) ->
   render_page W f (application_page sty app_name display version gopts cmds help) = Ok s ->
-  exists s1 s2 s3 ps, s = s1 ++ s2 ++ s3 /\ Forall2 (shows (f_styles f)) (available_section cmds) ps /\ s2 = concat ps /\
+  exists s1 s2 s3, s = s1 ++ s2 ++ s3 /\ text_of (f_styles f) W (available_section cmds) s2 /\
     forall n, n <> [] -> spacefree n -> infix_of n s2 ->
       infix_of n (vis (f_styles f) H_AVAILABLE)
       \/ exists c, In c cmds /\ cmd_visible c = true /\ infix_of n (elem_vis (f_styles f) (snd (cmd_line c))).
 Proof.
   intros Hk Hok H. rewrite application_page_decomposes in Hok, H.
-  destruct (section_words W f _ _ _ s Hk Hok H) as (s1 & s2 & s3 & ps & E & Hps & E2 & Hw).
-  exists s1, s2, s3, ps. repeat split; auto. intros n Hne Hsf Hi. destruct (Hw n Hne Hsf Hi) as (x & Hin & Hx).
+  destruct (section_words W f _ _ _ s Hk Hok H) as (s1 & s2 & s3 & E & Hps & Hw).
+  exists s1, s2, s3. split; [exact E|]. split; [exact Hps|]. intros n Hne Hsf Hi. destruct (Hw n Hne Hsf Hi) as (x & Hin & Hx).
   apply available_section_elems in Hin as [->|[->|(c & H1 & H2 & ->)]].
   - left. unfold elem_vis in Hx. cbn [snd elem_label elem_text] in Hx. rewrite vis_nil in Hx. cbn [app] in Hx.
     assert (munge H_AVAILABLE = H_AVAILABLE) as Em by reflexivity. now rewrite Em in Hx.
